@@ -128,7 +128,7 @@ class Eff:
 
 def tree_mutators(F):
     out = []
-    for b in F.bodies:
+    for b in F.units():
         if b.kind != 'Closure' and b.self_base == 'Tree' and b.arg_count >= 1 and ref_kind(b.local_ty(1)) == 'mut' \
                 and b.local_name(1) == 'self':
             out.append(b)
